@@ -96,6 +96,11 @@ def cases():
     add("text lines out of order", drivers.drv_x_model, {"recipe": m2}, "x_to_text", lambda e: e["raw"].reverse(), "text_sorted")
     add("edited polyhedron packs stale", drivers.drv_b64, {"recipe": cfg}, "b64poly",
         lambda e: e["p_again"]["rows"][0].__setitem__("b", e["p_again"]["rows"][0]["b"] + 1), "poly_again_same")
+    hist2 = {"handles": {"h1": m2, "h2": cfg}, "calls": [{"h": "h2", "op": "reload_b64", "d": {}, "rule": None}, {"h": "h2", "op": "cfg_poly", "d": {}, "rule": None}]}
+    add("unpacked object differs from the packed one", drivers.drv_history, hist2, "history",
+        lambda e: [x for x in e["steps"][0]["after"] if x[0] == "h2"][0][1].__setitem__("value", 7), "store_unchanged")
+    add("answer after re-loading differs from fresh", drivers.drv_history, hist2, "history",
+        lambda e: e["steps"][1]["res"]["dpv"].__setitem__(0, 9), "result_as_fresh")
     add("malformed event (evaluation error)", drivers.drv_errors, {"recipe": m2}, "errors",
         lambda e: e["model"].__setitem__("kids", 3), "spec_eval_error")
     return out
